@@ -89,7 +89,9 @@ CLAIMS = {
             "completions, crashes with/without re-queue, replacements, stops) every registered worker is shutting down, holds >= 2 queued tests or the pool is empty, hence the loop never waits with a starved "
             "registered worker unless collection is in progress or some worker holds >= 2 tests; whole system (load): a system invariant (controller, every worker's two threads, both channels, the event queue, "
             "scheduler books = what each worker really holds) holds in every reachable state of the composed transition system (any interleaving, crash points, budgets, maxfail, collections), and in every reachable "
-            "state with the session not finished - also during start-up and collection - some non-crash step is enabled (C02_sys_load_no_standoff_any_phase, via a second invariant layer about the early phase). "
+            "state with the session not finished - also during start-up and collection - some non-crash step is enabled (C02_sys_load_no_standoff_any_phase, via a second invariant layer about the early phase); with equal non-empty collections and "
+            "no undecodable message that step SUCCEEDS - no internal error of the controller and never 'Unexpectedly no active workers available' (C02_sys_load_progress, with "
+            "C17_sys_load_controller_never_raises and the invariants J: tests left and no shutdown => an active worker not told to shut down, K: nobody active => shutdown in force). "
             "Partial: termination (a variant under fairness and finitely many crashes) and the other five modes are validated by the whole-system simulation on the real classes, not proved",
             "arithmetic case analysis of check_schedule, state invariant by induction over scheduler calls lifted to the DSession loop, whole-system invariant preserved by every step kind + induction over reachability (Lean 4) ; step-by-step replay of every simulated run by the Lean system model with the invariant evaluated after every step ; whole-system simulation with stand-off detection, differential correspondence of schedulers and of the worker threads (lock pre-emption)"),
     "C08": ("Lean theorems about the each scheduler (repaired): schedule() sends runtests_all + shutdown to every new node with its whole collection as book, skips started and still-collecting "
